@@ -380,7 +380,7 @@ def one(ctx, rng, k):
 
 def run_shard(ctx):
     logging.getLogger("pymoca").setLevel(logging.ERROR)
-    for k in range(ctx.n(800, 30000)):
+    for k in range(ctx.n(2000, 30000)):
         if ctx.out_of_time():
             break
         ctx.guarded(one, ctx, ctx.rng, k, timeout=120)
